@@ -703,6 +703,54 @@ def r614(ctx, fx):
         ctx.fail_closed(rid, "no call of FunctionCallback::apply found")
 
 
+def r615(ctx, fx, scope):
+    rid = ctx.rule("R6.15", "a size that must not be zero is not left to the configuration: every `chunks` / `chunks_exact` / `rchunks` / `windows` / `step_by` call in code "
+                   "reachable from parse / build / format / listing has an argument that is a positive literal, or went through `.max(k)` with k ≥ 1 in the same function, "
+                   "or is tested against 0 there — `slice::chunks(0)` panics, and `listing.num-bytes-per-line = 0` is a line of mos.toml")
+    NAMES = ("::chunks", "::chunks_exact", "::rchunks", "::windows", "::step_by", "::chunks_mut", "::chunks_exact_mut")
+    n = 0
+    for i in sorted(scope, key=lambda i: fx.fns[i].path):
+        f = fx.fns[i]
+        if not f.d.get("hir") or "::tests::" in f.path or f.kind == "closure":
+            continue
+        lets = {}
+        for y in lib.hwalk(f.hir["body"]):
+            if y.get("k") in ("let", "letx") and "init" in y and y["pat"].get("k") == "bind":
+                lets.setdefault(y["pat"]["name"], []).append(y["init"])
+        for x in lib.hwalk(f.hir["body"]):
+            if not (x.get("k") == "mcall" and ("::" + str(x.get("name"))) in NAMES and x.get("args")):
+                continue
+            if not ("slice" in str(x.get("path", "")) or "Iterator" in str(x.get("path", "")) or "[" in str(lib.strip(x["recv"]).get("ty", "")) + str(lib.strip(x["recv"]).get("aty", ""))):
+                continue
+            n += 1
+            a = lib.strip(x["args"][0])
+            chain, todo, seen = [], [a], set()
+            while todo and len(chain) < 8:
+                e = todo.pop()
+                chain.append(e)
+                for y in lib.hwalk(e):
+                    nm = lib.hpath(y) if y.get("k") == "path" else None
+                    if nm in lets and nm not in seen:
+                        seen.add(nm)
+                        todo.extend(lets[nm])
+            lit = lib.hlit(a)
+            positive = isinstance(lit, int) and lit > 0
+            clamped = any(y.get("k") in ("mcall", "call") and (y.get("name") == "max" or str(lib.hcallee(y) or "").endswith("::max")) and
+                          any(isinstance(lib.hlit(lib.strip(z)), int) and lib.hlit(lib.strip(z)) >= 1 for z in (y.get("args") or []) + ([y["recv"]] if y.get("recv") else []))
+                          for c in chain for y in lib.hwalk(c))
+            names = {lib.hpath(y) for c in chain for y in lib.hwalk(c) if y.get("k") == "path"}
+            tested = any(y.get("k") == "binary" and y.get("op") in ("Eq", "Ne", "Gt", "Lt", "Ge", "Le") and
+                         (lib.hlit(lib.strip(y["l"])) in (0, 1) or lib.hlit(lib.strip(y["r"])) in (0, 1)) and
+                         ({lib.hpath(z) for z in lib.hwalk(y) if z.get("k") == "path"} & names)
+                         for y in lib.hwalk(f.hir["body"]))
+            key = "%s|%s#%d" % (f.path, x.get("name"), n)
+            ctx.inst(rid, key, sample={"fn": f.path, "line": x.get("ln"), "literal": positive, "clamped_by_max": clamped, "tested_against_zero": bool(tested)})
+            if not (positive or clamped or tested):
+                ctx.finding(rid, key, "%s hands `%s` a size that nothing keeps away from zero: with a 0 from the configuration (`listing.num-bytes-per-line = 0`) or "
+                            "the program the call panics instead of producing a diagnostic" % (f.path.rsplit("::", 1)[-1], x.get("name")), "%s:%s" % (f.file, x.get("ln")))
+    ctx.inst(rid, "scan", sample={"calls_with_a_size_argument": n})
+
+
 def run(ctx):
     fx = ctx.facts
     r613(ctx, fx)
@@ -725,6 +773,7 @@ def run(ctx):
     # here through `dyn FunctionCallback` (ram()/ram16() are not registered by `mos build`)
     scope = {i for i in scope if not fx.fns[i].path.lstrip("<").startswith(("mos::debugger", "mos::test_runner", "mos::memory_accessor", "mos::lsp"))}
     ctx.extra["scope_functions"] = len(scope)
+    r615(ctx, fx, scope)
     r61(ctx, fx, T, scope)
     r62(ctx, fx, T, scope)
     r68(ctx, fx, scope)
